@@ -5,4 +5,5 @@ cd "$(dirname "$0")"
 mkdir -p out evidence
 export CARGO_NET_OFFLINE=true
 (cd harness && cargo build --offline --quiet)
+gcc -shared -fPIC -O1 -o out/crashshim.so harness/shim/crashshim.c -ldl
 echo "setup ok"
